@@ -172,6 +172,7 @@ structure CfgOK (cfg : Cfg) : Prop where
 /-- invariant of every state reachable through the public setters -/
 structure WF (cfg : Cfg) (s : State) : Prop where
   cache : s.packratEnabled = true → s.parseSel = .cache ∧ s.cache.kind ≠ .null
+  sel : s.parseSel = .cache → s.packratEnabled = true
   diagKeys : keys s.diag = cfg.diagAll
   compatKeys : keys s.compat = cfg.compatAll
 
@@ -198,30 +199,30 @@ theorem enableAllWarnings_keys (cfg : Cfg) : ∀ (ns : List String) (fl : Flags)
       | some e => exact hk
 
 theorem WF_disableMemo {cfg s} (h : WF cfg s) : WF cfg (disableMemo s) :=
-  ⟨by simp [disableMemo, resetCache], h.diagKeys, h.compatKeys⟩
+  ⟨by simp [disableMemo, resetCache], by simp [disableMemo, resetCache], h.diagKeys, h.compatKeys⟩
 
 theorem WF_enablePackratTail {cfg s} (sz : Option Int) (h : WF cfg s) : WF cfg (enablePackratTail sz s) := by
   unfold enablePackratTail
   split
   · exact h
-  · cases sz <;> exact ⟨by simp, h.diagKeys, h.compatKeys⟩
+  · cases sz <;> exact ⟨by simp, by simp, h.diagKeys, h.compatKeys⟩
 
 theorem WF_enableLRTail {cfg s} (cap : Option Int) (h : WF cfg s) : WF cfg (enableLRTail cap s).1 := by
   unfold enableLRTail
   cases cap with
-  | none => exact ⟨h.cache, h.diagKeys, h.compatKeys⟩
+  | none => exact ⟨h.cache, h.sel, h.diagKeys, h.compatKeys⟩
   | some n =>
     simp only
     split
-    · exact ⟨h.cache, h.diagKeys, h.compatKeys⟩
+    · exact ⟨h.cache, h.sel, h.diagKeys, h.compatKeys⟩
     · exact h
 
 theorem WF_stepOp {cfg s} (o : Op) (h : WF cfg s) : WF cfg (stepOp cfg o s).1 := by
   cases o with
-  | setDefaultWs c => exact ⟨h.cache, h.diagKeys, h.compatKeys⟩
-  | setKwChars c => exact ⟨h.cache, h.diagKeys, h.compatKeys⟩
-  | inlineLiterals c => exact ⟨h.cache, h.diagKeys, h.compatKeys⟩
-  | setVerbose b => exact ⟨h.cache, h.diagKeys, h.compatKeys⟩
+  | setDefaultWs c => exact ⟨h.cache, h.sel, h.diagKeys, h.compatKeys⟩
+  | setKwChars c => exact ⟨h.cache, h.sel, h.diagKeys, h.compatKeys⟩
+  | inlineLiterals c => exact ⟨h.cache, h.sel, h.diagKeys, h.compatKeys⟩
+  | setVerbose b => exact ⟨h.cache, h.sel, h.diagKeys, h.compatKeys⟩
   | enablePackrat sz f =>
     simp only [stepOp, enablePackrat]
     split
@@ -239,20 +240,20 @@ theorem WF_stepOp {cfg s} (o : Op) (h : WF cfg s) : WF cfg (stepOp cfg o s).1 :=
   | disableMemo => exact WF_disableMemo h
   | resetCache => exact h
   | diagSet n v =>
-    exact ⟨h.cache, by simp only [stepOp]; rw [cfgSet_keys]; exact h.diagKeys, h.compatKeys⟩
+    exact ⟨h.cache, h.sel, by simp only [stepOp]; rw [cfgSet_keys]; exact h.diagKeys, h.compatKeys⟩
   | enableAllWarnings =>
-    exact ⟨h.cache, by simp only [stepOp]; rw [enableAllWarnings_keys]; exact h.diagKeys, h.compatKeys⟩
+    exact ⟨h.cache, h.sel, by simp only [stepOp]; rw [enableAllWarnings_keys]; exact h.diagKeys, h.compatKeys⟩
   | compatSet n v =>
-    exact ⟨h.cache, h.diagKeys, by simp only [stepOp]; rw [cfgSet_keys]; exact h.compatKeys⟩
+    exact ⟨h.cache, h.sel, h.diagKeys, by simp only [stepOp]; rw [cfgSet_keys]; exact h.compatKeys⟩
   | compatAssign n v =>
-    exact ⟨h.cache, h.diagKeys, by simp only [stepOp]; rw [keys_setFlag]; exact h.compatKeys⟩
-  | newExpr => exact ⟨h.cache, h.diagKeys, h.compatKeys⟩
+    exact ⟨h.cache, h.sel, h.diagKeys, by simp only [stepOp]; rw [keys_setFlag]; exact h.compatKeys⟩
+  | newExpr => exact ⟨h.cache, h.sel, h.diagKeys, h.compatKeys⟩
   | copyExpr i =>
     simp only [stepOp]
     split
-    · exact ⟨h.cache, h.diagKeys, h.compatKeys⟩
+    · exact ⟨h.cache, h.sel, h.diagKeys, h.compatKeys⟩
     · exact h
-  | exprSetWs i c cd => exact ⟨h.cache, h.diagKeys, h.compatKeys⟩
+  | exprSetWs i c cd => exact ⟨h.cache, h.sel, h.diagKeys, h.compatKeys⟩
 
 /-! ### exact description of `restore (save s) t` -/
 
@@ -345,7 +346,7 @@ theorem WF_restoredState {cfg s} (t : State) (h : WF cfg s) : WF cfg (restoredSt
     intro hp
     have hp' : s.packratEnabled = true := hp
     have := h.cache hp'
-    simpa [restoredState, hp'] using this, h.diagKeys, h.compatKeys⟩
+    simpa [restoredState, hp'] using this, h.sel, h.diagKeys, h.compatKeys⟩
 
 /-! ### the context machine -/
 
